@@ -177,7 +177,9 @@ def run(ctx):
     orm = [("django", lambda n, m: oc.django_compile(n, m)[0]), ("sa-orm", lambda n, m: oc.sa_compile(n, "orm", m)[0]),
            ("sa-core", lambda n, m: oc.sa_compile(n, "core", m)[0])]
     step = 1 if ctx.thorough else 2
-    for w, n in [x for x in uniq if x[0] in well][::step]:
+    # the finite node-kind x position matrix always goes to the ORM backends in full; only the random trees are sub-sampled in the quick tier
+    matrix_keys = {w for w, _ in sc.dedup(sc.node_kind_matrix())}
+    for w, n in [x for i, x in enumerate([x for x in uniq if x[0] in well]) if x[0] in matrix_keys or i % step == 0]:
         for name, fn in orm:
             r = fn(n, "T")
             tally[f"{name}:{' '.join(r.split(' ')[:2]) if not r.startswith('ok') else 'ok'}"] += 1
